@@ -18,6 +18,7 @@ import (
 	"github.com/cnotch/ipchub/config"
 	"github.com/cnotch/ipchub/media"
 	"github.com/cnotch/ipchub/network/websocket"
+	"github.com/cnotch/ipchub/provider/auth"
 	"github.com/cnotch/ipchub/provider/security"
 	"github.com/cnotch/ipchub/service/rtsp"
 	"github.com/cnotch/ipchub/stats"
@@ -268,11 +269,29 @@ func (s *Session) onRequest(req *rtsp.Request) *rtsp.Response {
 	return resp
 }
 
+// 检查用户当前是否有权拉取本会话的流
+// （http 升级时只验证了各自连接的路径和当时的权限）
+func (s *Session) checkPermission(userName string) bool {
+	if !config.Auth() {
+		return true
+	}
+	conn := s.conn
+	if conn == nil {
+		return false
+	}
+	u := auth.Get(userName)
+	return u != nil && u.ValidatePermission(conn.Path(), auth.PullRight)
+}
+
 func (s *Session) onDescribe(resp *rtsp.Response, req *rtsp.Request) {
 
 	// TODO: 检查 accept 中的类型是否包含 sdp
 	s.url = req.URL
 	s.path = s.conn.Path() // 使用websocket路径
+	if !s.checkPermission(s.conn.Username()) {
+		resp.StatusCode = rtsp.StatusForbidden
+		return
+	}
 	// s.path = utils.CanonicalPath(req.URL.Path)
 	stream := media.GetOrCreate(s.path)
 	if stream == nil {
@@ -360,6 +379,11 @@ func (s *Session) onSetup(resp *rtsp.Response, req *rtsp.Request) {
 func (s *Session) onPlay(resp *rtsp.Response, req *rtsp.Request) {
 	if s.status == statusPlaying {
 		s.paused = false
+		return
+	}
+
+	if !s.checkPermission(s.conn.Username()) {
+		resp.StatusCode = rtsp.StatusForbidden
 		return
 	}
 
